@@ -360,6 +360,29 @@ def generate(unit, template_path, repo=None, canary=False):
                     raise AnchorError(f'{path}: closure #{kth} of {designator}: parameter `{cp}` missing from the lifted signature')
             sl = Slice(src, stt[bo].start, stt[bc].end, (' > '.join(containers) + ' > ' if containers else '') + designator + f' > closure #{kth}')
             count('R9', 1)
+        if 'arm' in kv:
+            # R9b match-arm lifting: the block of the arm whose pattern is given (token for token) becomes a free function; the
+            # variables bound by the pattern and the captured locals are the parameters of the template's signature
+            from .lexer import lex as _lex, sig as _sig
+            pat_toks = [t.text for t in _sig(_lex(kv['arm'][0]))]
+            stt = src.st
+            i0 = item.body_open if item.body_open is not None else item.a
+            found = None
+            i = i0
+            while i < item.b - len(pat_toks):
+                if [t.text for t in stt[i:i + len(pat_toks)]] == pat_toks and stt[i + len(pat_toks)].text == '=' and stt[i + len(pat_toks) + 1].text == '>' \
+                        and stt[i + len(pat_toks) + 2].text == '{':
+                    if found is not None:
+                        raise AnchorError(f'{path}: arm `{kv["arm"][0]}` found more than once in {designator}')
+                    bo = i + len(pat_toks) + 2
+                    found = (bo, match_close(stt, bo))
+                i += 1
+            if not found:
+                raise AnchorError(f'{path}: arm `{kv["arm"][0]}` not found in {designator}')
+            bo, bc = found
+            lifted_sig = kv['sig'][0]
+            sl = Slice(src, stt[bo].start, stt[bc].end, (' > '.join(containers) + ' > ' if containers else '') + designator + f' > arm `{kv["arm"][0]}`')
+            count('R9', 1)
         g.slices.append(sl)
         rewrites = list(dflt['rewrites'])
         ghost, ghostarg = dflt['ghost'], dflt['ghostarg']
